@@ -497,7 +497,7 @@ func init() {
 			quickTier = tier == "quick"
 			rejoinPre, roomsPre := 0, 1
 			if tier == "thorough" {
-				pre, b = 2, 40*time.Minute
+				pre, b = 2, 25*time.Minute
 				rejoinPre, roomsPre = 1, 1
 			}
 			env := []string{"GOMAXPROCS=1"}
